@@ -370,12 +370,67 @@ def run(tier, seed):
             replay=dict(kind="trace", **cfgs[tr["id"]]))
     ck.cover(traces_validated_against_impl=acc, trace_events=nev, trace_states=st["states"],
              binding_selftest="corrupted N(R) and dropped Deliver both rejected")
+    threaded_stage(ck, quick, seed)
     ck.sample(dict(trace=traces[0]["id"], const=traces[0]["const"], first_events=traces[0]["ev"][:6]))
     ck.sample(dict(mc="LlcpDlc M=4", depth=r.depth, distinct=r.distinct))
     ck.assume("non-threaded binding: application calls use MSG_DONTWAIT and are interleaved with collect()/dispatch() by the harness",
+              "threaded binding: blocking send()/recv() in application threads against both run loops under the deterministic scheduler "
+              "(preemption at synchronisation points), random schedules; the two MACs are joined by an in-memory pipe",
               "exhaustive run uses modulus 4 / windows 1..2; the modulus-16 code is exercised by trace validation only",
               "one data link connection per controller pair; frames are carried by a FIFO between collect() and dispatch()")
     return ck.finish()
+
+
+def threaded_stage(ck, quick, seed):
+    """blocking send()/recv() in application threads against the two run loops, under the scheduler"""
+    import multiprocessing as mp
+    from bind import c05t
+    n = 160 if quick else 3000
+    jobs = [(seed * 1000003 + i,) for i in range(n)]
+    runs = []
+    with mp.Pool(12, maxtasksperchild=50) as pool:
+        for st, res in pool.imap_unordered(c05t.work, jobs, chunksize=4):
+            if st != "ok":
+                raise RuntimeError("threaded harness crashed:\n%s" % res)
+            runs.append(res)
+    runs.sort(key=lambda r: r["id"])
+    traces = []
+    for r in runs:
+        rep = dict(kind="threaded", seed=r["seed"])
+        if r["outcome"] != "done":
+            ck.violation("threaded:%s:blocked=%s" % (r["outcome"], sorted(set(k.split("#")[0] for k in r["blocked"]))),
+                         "schedule seed %d: %s; blocked %s" % (r["seed"], r["outcome"], r["blocked"]), replay=rep)
+            continue
+        if r["dead"]:
+            ck.violation("threaded:thread-died:%s" % sorted(set(r["dead"].values())), "seed %d: %s" % (r["seed"], r["dead"]), replay=rep)
+        traces.append(dict(id=r["id"], const=r["const"], ev=r["ev"]))
+    base = next(t for t in traces if sum(1 for e in t["ev"] if e["a"] == "Enq" and e["out"]["t"] == "I") > 3)
+    m1 = json.loads(json.dumps(base))
+    for e in m1["ev"]:
+        if e["a"] == "Deq" and e["out"]["t"] == "I":
+            e["out"]["ns"] = (e["out"]["ns"] + 1) % 16
+            break
+    m1["id"] += "-ns"
+    m2 = json.loads(json.dumps(base))
+    idx = [i for i, e in enumerate(m2["ev"]) if e["a"] == "Enq"]
+    del m2["ev"][idx[1]]
+    m2["id"] += "-drop"
+    verdicts, st = tlc.validate_traces("Trace_LlcpDlcT.tla", "Trace_LlcpDlcT.cfg", PID, traces + [m1, m2], shards=16, timeout=1200)
+    if verdicts[m1["id"]][0] == "ACCEPT" or verdicts[m2["id"]][0] == "ACCEPT":
+        raise tlc.TLCError("binding vacuous (threaded): mutated trace accepted")
+    acc = 0
+    for t in traces:
+        v = verdicts[t["id"]]
+        if v[0] == "ACCEPT":
+            acc += 1
+            continue
+        line, act, why = v[1], v[2], v[3]
+        clause = why.get("clause") if isinstance(why, dict) else "?"
+        key = "threaded:inv:%s@%s" % (",".join(why.get("failed", [])), act) if clause == "inv" else "threaded:%s@%s" % (clause, act)
+        ck.violation(key, "threaded trace %s rejected at event %d: %s ; %s" % (t["id"], line, json.dumps(t["ev"][line - 1])[:300],
+                                                                             json.dumps(why, default=str)[:400]),
+                     replay=dict(kind="threaded", seed=int(t["id"][1:])))
+    ck.cover(traces_validated_against_impl=acc, threaded_schedules=len(runs), threaded_events=sum(len(t["ev"]) for t in traces))
 
 
 def classify(tr, line, act, why):
@@ -391,6 +446,17 @@ def classify(tr, line, act, why):
 
 def replay(rep, args):
     r = rep["replay"]
+    if r.get("kind") == "threaded":
+        from bind import c05t
+        st, res = c05t.work((r["seed"],))
+        print(st, res["outcome"], res["dead"], res["blocked"])
+        v, _ = tlc.validate_traces("Trace_LlcpDlcT.tla", "Trace_LlcpDlcT.cfg", PID + "_replay",
+                                   [dict(id=res["id"], const=res["const"], ev=res["ev"])], shards=1)
+        print(v)
+        bad = res["outcome"] != "done" or res["dead"] or v[res["id"]][0] != "ACCEPT"
+        if bad:
+            print("VIOLATION property=%s replay=%s" % (PID, args.replay))
+        return 1 if bad else 0
     tr, _ = run_one(r["seed"], r["steps"], r["with_close"], r.get("cfg"))
     verdicts, st = tlc.validate_traces("Trace_LlcpDlc.tla", "Trace_LlcpDlc.cfg", PID + "_replay", [tr], shards=1)
     v = verdicts[tr["id"]]
